@@ -1,0 +1,45 @@
+//go:build verif
+
+package scheduler
+
+import (
+	"fmt"
+
+	"github.com/uber-go/tally"
+
+	"github.com/uber/kraken/core"
+	"github.com/uber/kraken/lib/torrent/networkevent"
+	"github.com/uber/kraken/lib/torrent/scheduler/announcequeue"
+	"github.com/uber/kraken/lib/torrent/scheduler/announcer"
+	"github.com/uber/kraken/lib/torrent/storage"
+	"github.com/uber/kraken/tracker/announceclient"
+)
+
+// This file exists for the verification harness only (build tag verif).
+
+// NewVerifSwarmScheduler creates and starts a scheduler the way NewAgentScheduler
+// and NewOriginScheduler do (newScheduler followed by start: real event loop,
+// listener, ticker and announce loops), except that the caller supplies the
+// torrent archive, the announce queue and the announcer configuration. The
+// latter only replaces the hard-wired 5s interval before the first periodic
+// announce tick, so that swarms of started schedulers re-announce quickly.
+func NewVerifSwarmScheduler(
+	config Config,
+	ta storage.TorrentArchive,
+	stats tally.Scope,
+	pctx core.PeerContext,
+	announceClient announceclient.Client,
+	netevents networkevent.Producer,
+	announcerConfig announcer.Config,
+	aq announcequeue.Queue) (Scheduler, error) {
+
+	s, err := newScheduler(config, ta, stats, pctx, announceClient, netevents)
+	if err != nil {
+		return nil, fmt.Errorf("new scheduler: %s", err)
+	}
+	s.announcer = announcer.New(announcerConfig, announceClient, s.eventLoop, s.clock, s.logger)
+	if err := s.start(aq); err != nil {
+		return nil, fmt.Errorf("start: %s", err)
+	}
+	return s, nil
+}
